@@ -295,6 +295,22 @@ func NAME(a int, b int) (res int) {
 	return res
 }
 `))
+	// a commutative operation on the FIRST computed value and the FIRST parameter (and on the
+	// second of each): registers of different kinds that carry the same ordinal
+	n = next()
+	out = append(out, tmpl(n, SigII, true, []string{"same-ordinal-operands"}, nil, `func NAME(a int, b int) (res int) {
+	d := a - b
+	return d `+c("*", "+", "^", "&")+` a
+}
+`))
+	n = next()
+	out = append(out, tmpl(n, SigII, true, []string{"same-ordinal-operands"}, nil, `func NAME(a int, b int) (res int) {
+	d := a - 3
+	e := d / 2
+	res = e `+c("|", "*", "+")+` b
+	return res - d
+}
+`))
 	// a loop without an init statement, entered straight from the two arms of an if/else that
 	// give the counter different start values: the header has two entry edges, and which one
 	// comes first follows the order in which the source lists the arms
@@ -901,6 +917,31 @@ func NAME(a int, b int) (res int) {
 	}
 	out = append(out, mk("slice-bound-side/low-high", SigXI, []string{"slice-ops"}, sb("xs[:n]"), sb("xs[n:]")))
 	out = append(out, mk("slice-bound-side/three-index", SigXI, []string{"slice-ops"}, sb("xs[n:len(xs)]"), sb("xs[:n:len(xs)]")))
+	// a conversion between two defined types with the same underlying type (a ChangeType in
+	// SSA): which type the value becomes decides which method runs
+	dt := func(body string) string {
+		return `type tcNAME int
+
+type tfNAME int
+
+func (t tcNAME) Freezing() bool {
+	return t <= 0
+}
+
+func (t tfNAME) Freezing() bool {
+	return t <= 32
+}
+
+func NAME(a int, b int) (res int) {
+` + body + `
+	return b
+}
+`
+	}
+	out = append(out, mk("defined-type-conversion/static-method", SigII, []string{"changetype"}, dt("\tif tcNAME(a).Freezing() {\n\t\treturn 1\n\t}"), dt("\tif tfNAME(a).Freezing() {\n\t\treturn 1\n\t}")))
+	out = append(out, mk("defined-type-conversion/boxed", SigII, []string{"changetype"},
+		dt("\tvar f interface{ Freezing() bool } = tcNAME(a)\n\tif f.Freezing() {\n\t\treturn 1\n\t}"),
+		dt("\tvar f interface{ Freezing() bool } = tfNAME(a)\n\tif f.Freezing() {\n\t\treturn 1\n\t}")))
 	// two loop variables with the same start and the same constant, one advanced by addition and
 	// one by multiplication: a use of one replaced by the other
 	gk := func(use string) string {
